@@ -115,6 +115,7 @@ class RecErr:
         self.keep_states = False
         self.calls = []
         self.on_call = None
+        self.recent = []  # sizes of the last accepted steps (fault-rate tuning)
 
     def init_error(self):
         return self.inner.init_error()
@@ -133,10 +134,17 @@ class RecErr:
             self.on_call()
         p = self.fault.get("p_reject", 0.0)
         out = ep
-        if p > 0 and true >= 1.0 and self.streak < self.fault.get("max_burst", 2) and self.rng.random() < p:
+        # fault-rate tuning: spurious rejections must not drive the step size into a random walk towards zero
+        # (a weakly growing controller plus a 20 % rejection rate has negative drift); only attempts that are
+        # not already well below the recent accepted sizes are rejected spuriously
+        healthy = (not self.recent) or float(dt) > 0.3 * max(self.recent)
+        draw = self.rng.random() if p > 0 else 1.0
+        if p > 0 and true >= 1.0 and healthy and self.streak < self.fault.get("max_burst", 2) and draw < p:
             out = jnp.asarray(self.fault.get("value", 0.7), dtype=float)
             self.fired += 1
         seen = float(out)
+        if seen >= 1.0:
+            self.recent = (self.recent + [float(dt)])[-8:]
         self.streak = self.streak + 1 if seen < 1.0 else 0
         self.log.append((float(previous.t), float(dt), seen, true))
         if self.rec is not None:
